@@ -18,9 +18,9 @@ claimed = {
  'C07': (LOOP + "; strategy dispatch through the real refresh bodies, callback order, failing started during restart. Plus " + SYS + " with timers registered in started() on a virtual clock: ticks of a previous incarnation's timers after a restart are violations; programs strategy_*: every builder chain x spawn/spawn_owning followed by call, restart, call, stop - the strategy that serves the restart, as bound by the generic arguments along the real call path (tracked by the engine, defaults read from the type declarations), must be the one the chain names (confirmed natively by hv-entry strategies).", NOTE_SYS),
  'C06': (SYS + "; faults: the actor task is cancelled at any scheduler step, a handler panics (unwinding along the MIR cleanup edges), started fails; afterwards every pending and later operation must resolve with an error, nothing is handled, timers stop. Plus loop level: on every failing end the notifier is dropped un-notified and mailbox and context are dropped.", NOTE_SYS + " Children (released and stopping gracefully when the parent is killed or panics) and the registry (a killed service is treated as not running) are covered by the children_* / registry_service_killed programs."),
  'C10': (SYS + "; timers registered by started() run as real MIR (Context::interval/interval_with/delayed_send/delayed_exec, spawn_task, TokioSpawner) against a virtual clock that the scheduler may advance at any step; periods, exactly-once, no delivery after termination, no leaked timer task.", NOTE_SYS + " tokio::spawn / tokio::time::sleep are modelled (task table, virtual clock); durations are small concrete tick counts."),
- 'C11': (LOOP + "; timer and handler become ready at arbitrary polls, timeout/fail_on_timeout symbolic.", NOTE_LOOP),
+ 'C11': (LOOP + "; timer and handler become ready at arbitrary polls, timeout/fail_on_timeout symbolic. Plus the " + SYS + "; programs timeout_*: EnvironmentConfig{timeout: Some(T ticks), fail_on_timeout} set through the real with_config, futures_timer::Delay on the virtual clock, clients create idle gaps with sleep: a handler is abandoned only after its full budget T counted from its own start, never without a timeout; fail_on_timeout ends the actor with an error, otherwise the loop goes on.", NOTE_SYS + " The timeout programs are not replayed natively (real timers)."),
  'C12': (SYS + "; bounded(n) with n symbolic in 0..3: z3 is asked on every schedule whether #(sends returned Ok) - #(taken) can exceed n.", NOTE_SYS),
- 'C13': (LOOP + "; item order, completion and finished/stopped protocol of stream-attached actors.", NOTE_LOOP),
+ 'C13': (LOOP + "; item order, completion and finished/stopped protocol of stream-attached actors. Plus the " + SYS + "; programs stream_*: create_loop_on_stream from MIR on a scripted stream (a queue fed and closed by a producer task), messages interleaved with items, stop / last drop while the stream never ends: items handled exactly once in stream order, finished then stopped exactly once, Ok end, the stream is not polled after its end, the actor does not outlive the end of its stream.", NOTE_SYS + " The stream programs are not replayed natively (select!'s random branch order cannot be scheduled)."),
  'C14': (SYS + "; stopped()/running()/WeakAddr::stopped() compared with the loop's termination on awaited and un-awaited histories.", NOTE_SYS),
  'C15': (SYS + "; conversion/drop programs leaving one strong kind; upgrades and ctx.stop from a handler must succeed.", NOTE_SYS),
 }
